@@ -216,6 +216,11 @@ def _expand_partial_output(partial, sl_map, output_unroll_info):
     if not partial.struct.t:
         return partial  # empty tensor: nothing to expand
 
+    # blocks are addressed below in the order of native (stored) legs: materialise a pending transposition
+    # and translate the logical output axes past meta-fused legs
+    partial = partial.consume_transpose()
+    output_unroll_info = {sum(mf[0] for mf in partial.mfs[:out_ax]): v for out_ax, v in output_unroll_info.items()}
+
     config = partial.config
     backend = config.backend
     nsym = config.sym.NSYM
@@ -249,7 +254,7 @@ def _expand_partial_output(partial, sl_map, output_unroll_info):
 
         expanded.set_block(ts=block_ct, Ds=tuple(full_shape), val=full_block)
 
-    return expanded
+    return expanded._replace(mfs=partial.mfs, hfs=partial.hfs)
 
 
 def _iteration_checkpointed(tensors, sl_map, tensor_unroll_info, index_groups,
@@ -476,7 +481,8 @@ def _validate_and_resolve_unroll(*args,
     if unroll is None:
         return None
     assert isinstance(unroll, dict), "unroll must be a dict or None"
-    for k, v in unroll.items():
+    unroll = dict(unroll)  # integer entries are resolved below; the caller's dictionary stays as it is
+    for k, v in list(unroll.items()):
         assert isinstance(v, (list, int)), "unroll values must be either list of SlicedLeg or integer"
         if isinstance(v, list):
             assert all(isinstance(sl, SlicedLeg) for sl in v), "unroll list values must be of type SlicedLeg"
